@@ -562,6 +562,7 @@ impl Run {
         // unmatched violations: group by (site, class), smallest first, at most 10 replay files per group
         let mut unmatched = self.unmatched.lock().unwrap().clone();
         unmatched.sort_by_key(|v| v.size_key());
+        unmatched.dedup_by_key(|v| (v.site.clone(), v.class.clone(), v.case.to_string()));
         let mut groups: BTreeMap<(String, String), Vec<&Violation>> = BTreeMap::new();
         for v in unmatched.iter() {
             groups.entry((v.site.clone(), v.class.clone())).or_default().push(v);
